@@ -6,6 +6,7 @@ package tglib
 
 import (
 	"vspec/nasalg"
+	"vspec/vc"
 )
 
 // vcCount0 is the NAS COUNT the next uplink message must use.
@@ -47,4 +48,35 @@ func vcMac(alg uint8, key [16]byte, count uint32, msg []byte) [4]byte {
 		return nasalg.EIA1(key, count, 1, 0, msg)
 	}
 	return nasalg.EIA2(key, count, 1, 0, msg)
+}
+
+// vcDL is the UE's current downlink NAS COUNT (24 bits), read without side effect.
+func vcDL(ue *RanUeContext) uint32 {
+	if ue == nil {
+		return 0
+	}
+	return uint32(ue.DLCount.Overflow())<<8 | uint32(ue.DLCount.SQN())
+}
+
+// vcEstimate is the downlink NAS COUNT a receiver must associate with a
+// protected message (TS 24.501 4.4.3.1): the sequence number carried in octet 6,
+// the overflow counter incremented when the sequence number wrapped, both reset
+// by a "new security context" header type (3, 4).
+func vcEstimate(dl uint32, sht uint8, pkt []byte) uint32 {
+	if len(pkt) < 7 {
+		return dl
+	}
+	if sht == 3 || sht == 4 {
+		dl = 0
+	}
+	sqn := pkt[6]
+	ovf := uint16(dl >> 8)
+	if uint8(dl) > sqn {
+		ovf++
+	}
+	return uint32(ovf)<<8 | uint32(sqn)
+}
+
+func vcSame(a, b []byte) bool {
+	return len(a) == len(b) && vc.Forall(0, len(a), func(i int) bool { return a[i] == b[i] })
 }
